@@ -129,6 +129,7 @@ def election_case(
     lopsided=0.0,
     third_party=(0.08, 0.08, 0.08, 1.2),
     turnout_surge=(0.05, 0.05, 0.05, 0.33, -0.2),  # mean log turnout factor of the election (0.33: everybody near x1.4)
+    stalled=10,  # one in `stalled` partial reporters has an expected-vote percentage but no two-party votes yet
 ):
     pi = draw(st.sampled_from(list(estimators)))
     office = draw(st.sampled_from(list(offices)))
@@ -316,6 +317,8 @@ def election_case(
                 pd_, pg_, po_ = int(rng.integers(0, 9)), int(rng.integers(0, 9)), 0
             else:
                 pd_, pg_, po_ = int(fd * frac), int(fg * frac), int(fo * frac)
+                if stalled and status == N and draw(st.integers(0, stalled - 1)) == 0:
+                    pd_, pg_ = 0, 0
             feed = {"pev": pev, "rd": int(pd_), "rg": int(pg_), "ro": int(po_)}
         elif status == N0:
             feed = {"pev": 0, "rd": 0, "rg": 0, "ro": 0}
